@@ -403,6 +403,7 @@ def evaluate(e, env):
             f_ = evaluate(e.args[0], env); it_ = list(_iterate(evaluate(e.args[1], env), env))
             if f_ is None and e.func.id == "filter": return [x_ for x_ in it_ if x_]
             if not callable(f_): raise Unsupported("%s with a non-callable" % e.func.id)
+            if isinstance(f_, PyFn) and f_.fn in (str, repr): f_ = (lambda x_, _env=env: text_of(x_, _env) if isinstance(x_, (Inst, list)) else str(x_))        # str of an interpreted instance goes through its own __str__ / __repr__
             return [f_(x_) for x_ in it_] if e.func.id == "map" else [x_ for x_ in it_ if f_(x_)]
         if isinstance(e.func, ast.Name) and e.func.id == "object" and not e.args and not e.keywords and "object" not in env: return _Sentinel()      # a private sentinel
         if isinstance(e.func, ast.Attribute) and e.func.attr == "fromkeys" and isinstance(e.func.value, ast.Name) and e.func.value.id == "dict" and "dict" not in env and 1 <= len(e.args) <= 2 and not e.keywords:
